@@ -133,6 +133,10 @@ class ConstraintKMeans(KMeans):
                 self.cluster_centers_ = centers
                 self.inertia_ = float(X.shape[0])
                 self.n_iter_ = 0
+                # what KMeans.fit records about the columns
+                self.n_features_in_ = X.shape[1]
+                if hasattr(self, "feature_names_in_"):
+                    del self.feature_names_in_
         finally:
             self.max_iter = max_iter
         return self.constraint_kmeans(
